@@ -60,7 +60,7 @@ meta = {
     ],
   },
   "check_result": {
-    "command": "git -C /repo apply seeded/%s/patch.diff && ./verif check %s quick ; git -C /repo checkout -- ." % (tag, pid),
+    "command": "git -C /repo apply /verif/seeded/%s/patch.diff && ./verif check %s quick ; git -C /repo checkout -- ." % (tag, pid),
     "quick_exit": int(q),
     "detected": q == "1",
   },
